@@ -3,9 +3,9 @@
 (* x inside/outside; the path algebra laws are invariants.                                                  *)
 EXTENDS AoefPaths, TLC, Json
 CONSTANTS MaxDepth
-VARIABLES ct, depth, name, audio, place, akind, bkind, dots, ph
+VARIABLES ct, depth, name, audio, place, akind, bkind, dots, call, ph
 
-vars == <<ct, depth, name, audio, place, akind, bkind, dots, ph>>
+vars == <<ct, depth, name, audio, place, akind, bkind, dots, call, ph>>
 DirParts == <<"d1", "sub dir", "üni nfd", "x.y">>
 \* the 7th and 8th names are NOT stable under unicode normalisation (decomposed accents e + U+0301, OHM SIGN U+2126)
 Names == <<"a.wav", "with space.wav", "üñí ©.wav", "dots.in.name.wav", "..hidden.wav", "日本.WAV", "été nfd.wav", "Ωhm.wav">>
@@ -20,12 +20,15 @@ Init == /\ ct \in Range(CTypes) /\ depth \in 0..MaxDepth /\ name \in DOMAIN Name
         /\ (audio = "none" => akind = "abs" /\ bkind = "abs" /\ place = "inside")
         /\ (place # "inside" => bkind = "abs")
         \* dots: the directory below the audio directory contains a ".." component (legal; stored and relocated verbatim)
+        \* call: how io.save / io.load are invoked: format left at its default, format="aoef", format=None (inferred from
+        \* the file), and type=<collection type> passed to load; the directory must be honoured on every path
+        /\ call \in {"default", "format_aoef", "format_none", "typed"}
         /\ dots \in BOOLEAN /\ (dots => depth = 1 /\ place = "inside" /\ akind = "abs" /\ bkind = "abs")
-Go == ph = "in" /\ ph' = "out" /\ UNCHANGED <<ct, depth, name, audio, place, akind, bkind, dots>>
+Go == ph = "in" /\ ph' = "out" /\ UNCHANGED <<ct, depth, name, audio, place, akind, bkind, dots, call>>
 Next == Go
 Spec == Init /\ [][Next]_vars
 Dir == IF dots THEN <<"site_a", "..", "shared">> ELSE SubSeq(DirParts, 1, depth)
-Export == ph = "out" => PrintT(<<"CASE", ToJson(World(ct, Sw0) @@ [sw |-> Sw0, pattern |-> "alt", audio |-> audio, place |-> place, akind |-> akind, bkind |-> bkind,
+Export == ph = "out" => PrintT(<<"CASE", ToJson(World(ct, Sw0) @@ [sw |-> Sw0, pattern |-> "alt", audio |-> audio, place |-> place, akind |-> akind, bkind |-> bkind, call |-> call,
                                                                   dir |-> Dir, file |-> Names[name], cycles |-> 1])>>)
 \* laws of the path algebra (A = some root, x = Dir \o <<file>>)
 A0 == <<"root", "audio dir">>
